@@ -58,11 +58,16 @@ pub fn run(prop: &str, tier: Tier, seed: i64, replay: Option<&str>) -> i32 {
                     let (a, r) = sweeps::c18_sweep(tier);
                     ck.add_stage(a, r);
                 }
-                let (a, r) = sweeps::c13_sweep(tier);
+                let (a, r) = sweeps::c13_sweep(tier, true);
                 ck.add_stage(a, r);
             }
             if prop == "C13" {
-                let (a, r) = sweeps::c13_sweep(tier);
+                let (a, r) = sweeps::c13_sweep(tier, false);
+                ck.add_stage(a, r);
+            }
+            if prop == "C10" {
+                // C10 for Cow (both forms) and SmallString too: every built value of the flavour sweep is re-built
+                let (a, r) = sweeps::c13_sweep(tier, true);
                 ck.add_stage(a, r);
             }
             if matches!(prop, "C04" | "C06") {
@@ -385,7 +390,8 @@ pub fn replay_case(prop: &'static str, case: &Value) -> Option<Vec<Violation>> {
             let s = case["input"].as_str()?;
             StringEval { prop, mon: monitors_for(prop) }.eval(s, &mut acc);
         },
-        "c13-flavors" => sweeps::c13_flavor_case(&BuildSpec::from_json(&case["spec"])?, &mut acc),
+        "c13-flavors" => sweeps::c13_flavor_case(&BuildSpec::from_json(&case["spec"])?, false, &mut acc),
+        "c10-flavors" => sweeps::c13_flavor_case(&BuildSpec::from_json(&case["spec"])?, true, &mut acc),
         "build" => {
             let spec = BuildSpec::from_json(&case["spec"])?;
             BuildEval { prop, mon: monitors_for(prop) }.eval(case["flavor"].as_str()?, &spec, &mut acc);
